@@ -97,6 +97,23 @@ def run(pid, tier, sel):
         else:
             data, stderr, dt, cmd = {"verification-results": {"encountered-vir-error": True}}, cannot_apply, 0.0, "verus (not run: %s)" % cannot_apply[:120]
         res = data.get("verification-results", {})
+
+        def unprocessable(r):
+            return r.get("encountered-vir-error") or (r.get("encountered-error") and r.get("verified", 0) == 0 and r.get("errors", 0) == 0)
+
+        if cannot_apply is None and unprocessable(res):
+            # MergedTimeline::update and prepare_frame are independent of the SubTimeline functions (and of each other): if the
+            # file cannot be processed with them, try without, so that a restructuring of one leaves only its own unit undecided
+            for kw in ({"skip_merged": True}, {"skip_prepare": True}, {"skip_merged": True, "skip_prepare": True}):
+                text2, rep2 = extract_verus.assemble(**kw)
+                open(path, "w").write(text2)
+                data2, stderr2, dt2, cmd2 = run_verus(path)
+                dt += dt2
+                if not unprocessable(data2.get("verification-results", {})):
+                    rep2["skipped"] = rep2.get("skipped", []) + ["Verus could not process the file with %s: %s" % (" and ".join(k[5:] for k in kw), stderr[-800:])]
+                    text, rep, data, stderr, cmd = text2, rep2, data2, stderr2, cmd2
+                    res = data.get("verification-results", {})
+                    break
         if res.get("encountered-vir-error") or (res.get("encountered-error") and res.get("verified", 0) == 0 and res.get("errors", 0) == 0):
             # The extracted text no longer type-checks under the contracts (the functions were restructured).
             # Route V cannot decide; the bounded native search on the real code stands in: a disagreement with
@@ -145,7 +162,7 @@ def run(pid, tier, sel):
                    "solver": "z3", "bounded": None, "checks": 1, "checks_ok": 0, "solver_s": (fb or {}).get("time-micros", 0) / 1e6,
                    "rlimit": (fb or {}).get("rlimit"), "assumes": v.get("assumes", [])}
             if fb is None:
-                rec.update(verdict="undecided", detail="function not found in verus results (anchor lost?)")
+                rec.update(verdict="undecided", detail="function not found in verus results (anchor lost?) " + "; ".join(rep.get("skipped", []))[:600])
             elif fb.get("success") and not es:
                 rec.update(verdict="pass", detail="", checks_ok=1)
             else:
@@ -199,7 +216,10 @@ def run(pid, tier, sel):
             "assumptions": ["A2: f32 comparisons are functions of their operands and order valid positions (axioms in contracts/verus/prelude.rs)",
                             "A3: Easing is opaque, clone returns an equal value",
                             "V-R1: from_keyframes takes &Vec<Keyframe<Data>> instead of impl IntoIterator (the derive macro's only call shape)",
-                            "the value function passed to from_keyframes is pure (callable everywhere, functional)"],
+                            "the value function passed to from_keyframes is pure (callable everywhere, functional)"]
+                           + (["A7 (V-R8): slice::binary_search_by(|t| t.total_cmp(&x)) on sorted valid positions meets std's documented contract (Ok(i): element i equals x; Err(i): elements before i <= x <= elements from i); external_body, executed (not assumed) by the bounded Kani harnesses prepare_frame_n*/search_index_n*",
+                               "A7: TimeScale::get_position returns a valid position (route K's proved contract, C03); TimeScale is opaque in route V"] if any(v["function"] == "prepare_frame" for v in sel) else [])
+                           + (["V-R7: a merged timeline's component is any implementation of Timeline::update (Verus-side trait declaration)"] if any(v["function"].startswith("MergedTimeline") for v in sel) else []),
         }
     finally:
         vlib.remove_scratch(d)
